@@ -9,6 +9,37 @@ pub struct Call {
     pub src: Vec<u8>,
     pub cap: usize,
     pub last: bool,
+    /// destination pre-fill
+    pub fill: u8,
+    /// destination / source start address modulo 16
+    pub dalign: u8,
+    pub salign: u8,
+}
+
+impl Call {
+    pub fn new(src: &[u8], cap: usize, last: bool) -> Call {
+        Call { src: src.to_vec(), cap, last, fill: 0xA5, dalign: 0, salign: 0 }
+    }
+    pub fn to_json(&self) -> crate::json::J {
+        use crate::json::J;
+        J::obj()
+            .set("src", J::s(&hex(&self.src)))
+            .set("cap", J::i(self.cap))
+            .set("last", J::Bool(self.last))
+            .set("fill", J::i(self.fill as usize))
+            .set("dalign", J::i(self.dalign as usize))
+            .set("salign", J::i(self.salign as usize))
+    }
+    pub fn from_json(j: &crate::json::J) -> Call {
+        Call {
+            src: unhex(j.get("src").unwrap().as_str().unwrap()),
+            cap: j.get("cap").unwrap().as_i64().unwrap() as usize,
+            last: j.get("last").unwrap().as_bool().unwrap(),
+            fill: j.get("fill").unwrap().as_i64().unwrap() as u8,
+            dalign: j.get("dalign").unwrap().as_i64().unwrap() as u8,
+            salign: j.get("salign").unwrap().as_i64().unwrap() as u8,
+        }
+    }
 }
 
 #[derive(Clone, Debug)]
@@ -20,6 +51,8 @@ pub struct DecRun {
     pub any_errors: bool,
     pub total_read: usize,
     pub problems: Vec<String>,
+    /// (call index, message) if a call panicked; the run stops there
+    pub panic: Option<(usize, String)>,
 }
 
 fn push_obs(run: &mut DecRun, o: &DecObs, sink: Sink) {
@@ -46,12 +79,19 @@ fn push_obs(run: &mut DecRun, o: &DecObs, sink: Sink) {
 }
 
 /// Executes exactly the given calls on a fresh decoder.
-pub fn run_decoder_calls(e: &Enc, bom: BomMode, sink: Sink, repl: bool, calls: &[Call], fill: u8) -> Result<DecRun, String> {
+pub fn run_decoder_calls(e: &Enc, bom: BomMode, sink: Sink, repl: bool, calls: &[Call]) -> Result<DecRun, String> {
     let mut dec = new_decoder(e, bom);
-    let mut run = DecRun { toks: vec![], obs: vec![], finished: false, used: e.name, any_errors: false, total_read: 0, problems: vec![] };
-    for c in calls {
-        let d = Dst { cap: c.cap, fill, align: 0, prior: None };
-        let o = call_decoder(&mut dec, sink, repl, &c.src, c.last, &d)?;
+    let mut run = DecRun { toks: vec![], obs: vec![], finished: false, used: e.name, any_errors: false, total_read: 0, problems: vec![], panic: None };
+    for (i, c) in calls.iter().enumerate() {
+        let fill = if sink == Sink::Str { c.fill & 0x7F } else { c.fill };
+        let d = Dst { cap: c.cap, fill, align: c.dalign as usize, prior: None };
+        let o = match with_aligned_src(&c.src, c.salign as usize, |s| call_decoder(&mut dec, sink, repl, s, c.last, &d)) {
+            Ok(o) => o,
+            Err(m) => {
+                run.panic = Some((i, m));
+                return Ok(run);
+            }
+        };
         push_obs(&mut run, &o, sink);
         if o.res == Res::InputEmpty && c.last {
             run.finished = true;
@@ -66,7 +106,7 @@ pub fn run_decoder_calls(e: &Enc, bom: BomMode, sink: Sink, repl: bool, calls: &
 /// worst-case query lies); every chunk is pushed until InputEmpty.
 pub fn decode_chunks_ample(e: &Enc, bom: BomMode, sink: Sink, repl: bool, chunks: &[&[u8]], close: bool) -> Result<DecRun, String> {
     let mut dec = new_decoder(e, bom);
-    let mut run = DecRun { toks: vec![], obs: vec![], finished: false, used: e.name, any_errors: false, total_read: 0, problems: vec![] };
+    let mut run = DecRun { toks: vec![], obs: vec![], finished: false, used: e.name, any_errors: false, total_read: 0, problems: vec![], panic: None };
     let n = chunks.len();
     for (i, ch) in chunks.iter().enumerate() {
         let last = close && i + 1 == n;
